@@ -118,6 +118,9 @@ func genC12(r *kernel.Rand) *kernel.Scenario {
 	if c["virtual"] > 0 && c["vsettle_gap_ms"] == 0 && r.Bool(0.2) {
 		c["vsettle_sendfail"] = int64(1 + r.Intn(2))
 	} else if c["virtual"] > 0 && r.Bool(0.15) {
+		c["vfund_gap_ms"] = int64([]int{9990, 9999, 10000, 10000, 10000, 10001, 10010, 10500}[r.Intn(8)])
+		c["yield_pct"], c["long_yields"] = 100, 1
+	} else if c["virtual"] > 0 && r.Bool(0.15) {
 		c["vfund_sendfail"] = int64(1 + r.Intn(2))
 	} else if r.Bool(0.15) {
 		c["sendfail_nth"], c["sendfail_dir"] = int64(r.Range(1, 30)), int64(r.Intn(2))
@@ -149,8 +152,18 @@ func execC12(tt *testing.T, sc *kernel.Scenario, trace bool) *kernel.Result {
 		// answers probes. It must not answer sync messages: two clients running
 		// the library's handler would bounce sync replies forever (each reply is
 		// itself a request), which an adversary's own software would not do.
+		vfundGap, vfundHeld := time.Duration(sc.Cfg("vfund_gap_ms", 0))*time.Millisecond, false
 		t.w.Bus.Intercept = func(from, to string, e *wire.Envelope) (*wire.Envelope, bool) {
 			if _, ok := e.Msg.(*client.ChannelSyncMsg); ok && from == "A" {
+				return e, false
+			}
+			if _, ok := e.Msg.(*client.VirtualChannelFundingProposalMsg); ok && vfundGap > 0 && from == "B" && to == "H" && !vfundHeld {
+				// a slow link: the second party's funding proposal of the first honest
+				// virtual channel reaches the hub about its patience (10 s) after the
+				// first party's
+				vfundHeld = true
+				s.Count("fault.virtual_funding_proposals_far_apart", 1)
+				_ = t.w.Bus.Inject(e, vfundGap+s.Delay("vfund-gap", 0, 500*time.Microsecond))
 				return e, false
 			}
 			return e, true
@@ -299,7 +312,14 @@ func execC12(tt *testing.T, sc *kernel.Scenario, trace bool) *kernel.Result {
 			case r := <-done:
 				if r.err != nil && strings.Contains(r.err.Error(), "locking machine mutex in time") {
 					s.Fail("C12.lockup@"+name, "after the hostile messages an honest update on %s could not lock the machine mutex within 60 simulated seconds", name)
-				} else if r.err != nil && classify(r.err) == "timeout" && name == "B-H" {
+				} else if r.err != nil && classify(r.err) == "timeout" && name == "B-H" && sc.Cfg("vfund_gap_ms", 0) == 0 {
+					// (with funding proposals held back for about the hub's patience the
+					// second party's own request times out; the hub's late rejection of
+					// it can then meet that party's next request for the same version -
+					// answers name only channel and version - and the two honest clients
+					// legitimately end up one version apart. The update protocol promises
+					// nothing after a timed-out request, and the channel is not locked:
+					// requests are refused or time out in bounded time.)
 					s.Fail("C12.unresponsive@"+name, "after the hostile messages an honest update on %s between two honest clients timed out: %v", name, r.err)
 				}
 				s.Count("probe.probe_"+classify(r.err), 1)
